@@ -277,14 +277,16 @@ func concCall(r *vc.Rand, k string) string {
 		return fmt.Sprintf("app %s %s", k, a)
 	case 10:
 		return "getl " + k
+	// hash calls only on key h, and never `get h`: Get hands out the live internal map of a hash
+	// key (known finding get-returns-live-hash), reading it next to SetHash is a caller-side race
 	case 11:
-		return fmt.Sprintf("hset %s %s %s", k, vc.Pick(r, []string{"f", "g"}), a)
+		return fmt.Sprintf("hset h %s %s", vc.Pick(r, []string{"f", "g"}), a)
 	case 12:
-		return "hall " + k
+		return "hall h"
 	case 13:
-		return fmt.Sprintf("hget %s f", k)
+		return "hget h f"
 	case 14:
-		return "del " + k
+		return "del " + vc.Pick(r, []string{k, k, "h"})
 	}
 	return fmt.Sprintf("rem %s %s", k, a)
 }
